@@ -348,7 +348,8 @@ EvalList(G, e, lo, hi, env, txt, p, acc, far) ==
          ELSE IF r.t = "fail"
               THEN (IF Len(acc) >= lo THEN Ok(<<"l", acc>>, p, Mx(far, r.far))
                     ELSE Failed(r.e, Mx(far, r.far)))
-         ELSE IF r.e <= p THEN Ill         \* repetition of something that consumed nothing (or moved back)
+         ELSE IF r.e <= p /\ hi < 0 THEN Ill   \* unbounded repetition of something that consumed nothing (or moved back):
+                                               \* never ends; with an upper bound it simply counts (Opt("x"){3} gives three values)
          ELSE EvalList(G, e, lo, hi, env, txt, r.e, Append(acc, r.v), Mx(far, r.far))
 
 (* Sep(e, s, discard, trailer, empty, reqsep).  cp = position the list ends *)
